@@ -401,15 +401,18 @@ where
                                 cluster_last_duration
                             };
 
-                            overlap_time.map(|time| (time, duration))
+                            overlap_time.map(|time| (time, duration, place_time.end))
                         }
                     })
                 })
-                .filter_map(|(overlap_time, duration)| {
+                .filter_map(|(overlap_time, duration, place_end)| {
                     // TODO adapt service time from last cluster job to avoid time window violation of
                     //      a next job in case of last time arrival. However, this can be too restrictive
                     //      in some cases and can be improved to keep time window a bit wider.
                     let end = overlap_time.end - duration - info.commute.forward.duration;
+                    // NOTE the candidate is served after everything what is already in the cluster, so the latest
+                    // arrival at the cluster is also limited by the end of the candidate's own time window
+                    let end = end.min(place_end - cluster_place.duration - info.commute.forward.duration);
                     if end - overlap_time.start < time_window_threshold {
                         None
                     } else {
